@@ -4936,12 +4936,15 @@ func (l *Lowerer) tryEvalConstantBool(expr parser.Expr) (bool, bool) {
 
 // tryEvalConstantUint tries to evaluate an expression as a constant unsigned integer.
 // Returns (value, true) on success, or (0, false) on failure.
-func (l *Lowerer) tryEvalConstantUint(expr parser.Expr) (uint64, bool) {
+func (l *Lowerer) tryEvalConstantUint(expr parser.Expr) (uint64, bool, error) {
 	_, val, err := l.evalConstantIntExpr(expr)
 	if err != nil {
-		return 0, false
+		return 0, false, nil
 	}
-	return uint64(val), true
+	if val < 0 {
+		return 0, false, fmt.Errorf("constant expression must not be negative, got %d", val)
+	}
+	return uint64(val), true, nil
 }
 
 // evalConstantIntExpr evaluates a constant integer expression at compile time.
@@ -10312,7 +10315,11 @@ func (l *Lowerer) resolveType(typ parser.Type) (ir.TypeHandle, error) {
 		// Parse size expression if present
 		var size ir.ArraySize
 		if t.Size != nil {
-			if n, ok := l.tryEvalConstantUint(t.Size); ok {
+			n, ok, sizeErr := l.tryEvalConstantUint(t.Size)
+			if sizeErr != nil {
+				return 0, fmt.Errorf("array size must be greater than 0: %w", sizeErr)
+			}
+			if ok {
 				if n == 0 {
 					return 0, fmt.Errorf("array size must be greater than 0")
 				}
@@ -10340,8 +10347,8 @@ func (l *Lowerer) resolveType(typ parser.Type) (ir.TypeHandle, error) {
 		}
 		var size *uint32
 		if t.Size != nil {
-			n, ok := l.tryEvalConstantUint(t.Size)
-			if !ok || n == 0 {
+			n, ok, sizeErr := l.tryEvalConstantUint(t.Size)
+			if sizeErr != nil || !ok || n == 0 {
 				return 0, fmt.Errorf("binding_array size must be a constant expression greater than 0")
 			}
 			s := uint32(n)
